@@ -11,7 +11,7 @@
 From Coq Require Import ZArith Bool List Lia.
 From GoCoap Require Import Base.Bytes Block.Model Blockwise.Config Blockwise.Model Blockwise.Spec Blockwise.Proofs Blockwise.Run
   Blockwise.ProofsExchange Blockwise.ProofsProgressDown.
-From GoCoap Require Blockwise.ProofsProgressUp.
+From GoCoap Require Blockwise.ProofsProgressUp Blockwise.ProofsProgressBoth.
 Import ListNotations.
 Open Scope Z_scope.
 
@@ -424,6 +424,37 @@ Theorem C04_progress_write_small : forall c i x r,
   mo_sizes (last tr Up.no_mob) = [0; 0; 0; 0] /\ flight (Up.exec c (init c) script) = [].
 Proof. exact Up.C04_write_small_delivered. Qed.
 Print Assumptions C04_progress_write_small.
+
+(* Upload AND download block-wise (Blockwise/ProofsProgressBoth.v): Do POST/PUT with a
+   block-wise request (outside O2) whose response is block-wise too, every SZX pair: one
+   delivery of the exact request at B, one of the exact response at A, no error, one ok
+   return in the last step, both endpoints back in their initial state, after
+   upload_rounds + download_rounds <= ceil(|request| / block) + ceil(|response| / block)
+   round trips.  (The response region of one block is O3 again: Both.C04_both_single_block.) *)
+Module Both := GoCoap.Blockwise.ProofsProgressBoth.
+Theorem C04_progress_upload_download : forall c i x r,
+  nth_error (cexch c) i = Some x -> xkind x = 0 -> xcode x = 2 \/ xcode x = 3 -> 0 <= xlen x ->
+  0 <= cszxA c <= 7 -> 0 <= cszxB c <= 7 -> 0 <= cmaxA c -> (cszxA c = 7 -> 1024 <= cmaxA c) ->
+  (Z.min (cszxA c) (cszxB c) = 7 -> 1024 <= cmaxB c) ->
+  size (cszxA c) < xlen x -> ~ Up.o2_region c (xlen x) ->
+  nth_error (cres c) (Z.to_nat (xpath x)) = Some r ->
+  let block := size (Z.min (cszxA c) (cszxB c)) in
+  let L2 := blen (res_body r 0) in
+  buffer_size (Z.min (cszxA c) (cszxB c)) (cmaxB c) < L2 ->
+  let rounds := Up.upload_rounds c (xlen x) + Both.download_rounds c L2 in
+  let n := (2 * Z.to_nat rounds)%nat in
+  let script := Start i :: repeat (Deliver 0) n in
+  let tr := run c (init c) script in
+  let wf := Up.exec c (init c) script in
+  Up.deliv_to 1 tr = [request_of x] /\ Up.deliv_to 0 tr = [Up.response_of c x r] /\
+  Forall (fun o => mo_err o = 0) tr /\
+  concat (map mo_ret tr) = [(Z.of_nat i, 0)] /\ mo_ret (last tr Up.no_mob) = [(Z.of_nat i, 0)] /\
+  mo_sizes (last tr Up.no_mob) = [0; 0; 0; 0] /\
+  wa wf = wa (init c) /\ wb wf = wb (init c) /\ flight wf = [] /\ pending wf = [] /\ vers wf = [] /\
+  2 <= Up.upload_rounds c (xlen x) /\ 1 <= Both.download_rounds c L2 /\
+  rounds <= (xlen x + block - 1) / block + (L2 + block - 1) / block.
+Proof. exact Both.C04_both_blockwise. Qed.
+Print Assumptions C04_progress_upload_download.
 
 (* Non-vacuity of the two-party theorems: two concurrent exchanges (a 40-byte POST with a
    5-byte answer, token 7; a GET of a 50-byte resource with ETag, token 8) at SZX 0 / 1,
